@@ -134,7 +134,7 @@ def run(rep, tier, seed):
         if enc_expr(L.dedup(s)) != enc_expr(L.dedup(p)):
             rep.violations.append({'key': 'string', 'kind': 'text', 'text': s, 'what': 'dedup(string) differs from dedup(parse(string))'})
     # combine_expressions
-    rels = [('AND', 0), ('and', 0), ('And', 0), ('OR', 1), ('or', 1), ('oR', 1), ('xor', 2), ('', 2), (None, 2), (3, 2), ('AND ', 2)]
+    rels = RELS
     texts_pool = ['mit', 'gpl', 'mit', 'a or b', 'mit and gpl', 'gpl', 'x with y', '(mit)', 'MIT', ' mit ']
     m = 4000 if tier == 'thorough' else 500
     reqs, metas = [], []
@@ -195,8 +195,19 @@ def run(rep, tier, seed):
             rep.violations.append({'key': 'nonlist', 'kind': 'combine', 'what': 'non-list input raised ' + type(ex).__name__, 'text': repr(bad)})
 
 
+RELS = [('AND', 0), ('and', 0), ('And', 0), ('OR', 1), ('or', 1), ('oR', 1), ('xor', 2), ('', 2), (None, 2), (3, 2), ('AND ', 2)]
+
+
 def replay(payload):
     le = imp()
+    if payload.get('kind') == 'combine' and 'expressions' in payload:
+        rel = [r for r, c in RELS if repr(r) == payload['relation']][0]
+        code = dict((repr(r), c) for r, c in RELS)[payload['relation']]
+        got = outcome_of(lambda: le.combine_expressions(list(payload['expressions']), relation=rel, unique=payload['unique']),
+                         lambda e: enc_opt(e, enc_expr))
+        if code == 2 and payload['expressions']:
+            return got == [4], 'relation %r: outcome %r' % (rel, got)
+        return True, 'outcome %r' % (got,)
     if payload.get('kind') == 'tree':
         err, got, key = check_tree(payload['tree'], le.Licensing())
         return err is None, err or 'dedup matches the reference'
